@@ -24,7 +24,21 @@ def main():
     for pid in ["C%02d" % i for i in range(1, 21)] + sorted({x for x in list(fx) + list(kn) if not x.startswith("C")}):
         frows.append("| %s | %d | %d | %d |" % (pid, fx.get(pid, 0), kn.get(pid, 0), len(roots.get(pid, ()))))
     frows.append("| total | %d | %d | |" % (sum(fx.values()), sum(kn.values())))
+    # specification inventory: module, lines, the pipelines that name it
+    props = {os.path.basename(f)[:-3]: open(f).read() for f in glob.glob(os.path.join(HERE, "props", "*.py"))}
+    srows = ["| module | lines | named by |", "|---|---|---|"]
+    total = 0
+    for f in sorted(glob.glob(os.path.join(HERE, "spec", "*.tla"))):
+        m = os.path.basename(f)[:-4]; n = sum(1 for _ in open(f)); total += n
+        txt = open(f).read()
+        users = sorted(k for k, v in props.items() if re.search(r"[\"'/]%s[\"'._]" % re.escape(m), v))
+        ext = sorted(set(re.findall(r"^EXTENDS (.*)$", txt, re.M)[0].replace(" ", "").split(",")) & {os.path.basename(g)[:-4] for g in glob.glob(os.path.join(HERE, "spec", "*.tla"))}) if re.search(r"^EXTENDS ", txt, re.M) else []
+        srows.append("| %s | %d | %s%s |" % (m, n, ", ".join(users) or "-", (" (extends " + ", ".join(ext) + ")") if ext else ""))
+    srows.append("| %d modules | %d | |" % (len(srows) - 2, total))
     p = os.path.join(HERE, "DESIGN.md"); s = open(p).read()
+    if "<!-- BEGIN:specs -->" in s:
+        s = block(s, "specs", "\n".join(srows))
+        open(p, "w").write(s); s = open(p).read()
     s = block(s, "measured", "\n".join(rows)); s = block(s, "findings", "\n".join(frows))
     open(p, "w").write(s)
 if __name__ == "__main__":
